@@ -146,6 +146,7 @@ func (d *Drv) onEvent(slot int, spec *ObsSpec, h ecs.Entity, ptrs typed.Ptrs) {
 			d.structuralRejected("observer callback")
 		}
 	}
+	d.statsInCallback(fmt.Sprintf("an observer callback (%v) during %s", spec.Ev, x.Op.K))
 	d.poke("observer callback during " + x.Op.K.String())
 	if !spec.Ev.IsBefore() && x.Op.Leak != nil && !d.leaked && leakKinds[x.Op.K] {
 		// after-events fire when the operation's structural work is done: a query opened here may stay open
@@ -507,6 +508,11 @@ func (d *Drv) Sweep(deep bool) {
 				if !found {
 					d.viol("C01", "ids-content", "EID %d IDs() contains %v not in model mask %v", id, ids.Get(k), st.Mask)
 				}
+			}
+		}
+		for k, lid := range d.LateID {
+			if d.U.Has(h, lid) || lateTypes[d.lateUsed[k]].has(d, h) {
+				d.viol("C18", "late-type-has", "EID %d has late component %v which no operation added", id, lid)
 			}
 		}
 		if deep {
